@@ -342,6 +342,56 @@ def r6_default_declared(ctx):
                    "0 / False / '' as undeclared on this backend only, so the parsed tables differ between pandas and polars", f.loc(c))
 
 
+def _truthiness_atoms(test):
+    """atoms of a condition that are evaluated for truthiness (through and / or / not)"""
+    if isinstance(test, ast.BoolOp):
+        for v in test.values:
+            yield from _truthiness_atoms(v)
+    elif isinstance(test, ast.UnaryOp) and isinstance(test.op, ast.Not):
+        yield from _truthiness_atoms(test.operand)
+    else:
+        yield test
+
+
+def r6_no_truthiness_of_default(ctx):
+    """No backend function of either flavour tests a declared default for truthiness (`if default:` / `x if default
+    else y` / `default and ...`, directly or through a local): the component-level set_default functions are reached by
+    the containers, and 0 / False / '' are legal defaults that the other backend fills."""
+    ix = ctx.ix
+    n = 0
+    for m in ix.modules.values():
+        if not m.path.startswith(("pandera/backends/pandas/", "pandera/backends/polars/")):
+            continue
+        for f in m.all_functions:
+            if "default" not in ast.dump(f.node):
+                continue
+            fx = None
+            tests = []
+            for node in walk_no_nested(f.node):
+                if isinstance(node, (ast.If, ast.While, ast.IfExp)):
+                    tests.append(node.test)
+                elif isinstance(node, ast.comprehension):
+                    tests += node.ifs
+                elif isinstance(node, ast.Assert):
+                    tests.append(node.test)
+            for t in tests:
+                for a in _truthiness_atoms(t):
+                    if fx is None:
+                        fx = FlowExpander(f.node)
+                    e = fx.expand(a)
+                    is_default = (isinstance(e, ast.Attribute) and e.attr == "default") or (
+                        isinstance(e, ast.Call) and isinstance(e.func, ast.Name) and e.func.id == "getattr" and len(e.args) >= 2
+                        and isinstance(e.args[1], ast.Constant) and e.args[1].value == "default")
+                    if not is_default:
+                        continue
+                    n += 1
+                    flavour = "polars" if "/polars/" in m.path else "pandas"
+                    ctx.ob("R6", f, f"{flavour} {f.short}: a default is declared iff it is not None (never by truthiness)", False,
+                           f"`{txt(a)}` (= `{txt(e)}`) is tested for truthiness in `{txt(t)[:60]}`: the legal defaults 0 / False / '' count as undeclared "
+                           "on this backend only, so nulls stay (or the column is rejected) where the other backend fills them", f.loc(a))
+    ctx.stats["truthiness_tests_of_default"] = n
+
+
 def r1_pyspark(ctx):
     """thorough: pyspark forms where expressible (best effort, never a VIOLATION source on unknown forms)."""
     ix = ctx.ix
@@ -370,6 +420,7 @@ def run(ctx):
     r4_twins(ctx)
     r5_uniqueness_nulls(ctx)
     r6_default_declared(ctx)
+    r6_no_truthiness_of_default(ctx)
     if ctx.tier == "thorough":
         r1_pyspark(ctx)
     ctx.assume("pandas operators/str accessors and polars expression methods have their documented element-wise meaning")
